@@ -313,8 +313,10 @@ func init() {
 	register(&CheckSpec{ID: "C04", Patterns: []string{pkgServer},
 		Jobs: func(tier string) []*JobCfg {
 			js := []*JobCfg{job(pkgServer, "HarnessC04", 1, 0, 0), job(pkgServer, "HarnessC04", 0, 0, 1), job(pkgServer, "HarnessC04", 1, 1, 0),
-				noMapOrder(job(pkgServer, "HarnessC04Seq", 2, 0)), noMapOrder(job(pkgServer, "HarnessC04Seq", 2, 1))}
+				noMapOrder(job(pkgServer, "HarnessC04Seq", 2, 0)), noMapOrder(job(pkgServer, "HarnessC04Seq", 2, 1)),
+				noMapOrder(job(pkgServer, "HarnessC04Topo", 1, 0, 6, 0, 0))}
 			if tier == "thorough" {
+				js = append(js, noMapOrder(job(pkgServer, "HarnessC04Topo", 2, 0, 6, 0, 0)), noMapOrder(job(pkgServer, "HarnessC04Topo", 1, 1, 6, 1, 0)), noMapOrder(job(pkgServer, "HarnessC04Topo", 1, 0, 6, 0, 1)))
 				js = append(js, job(pkgServer, "HarnessC04", 2, 0, 1), job(pkgServer, "HarnessC04", 2, 1, 1), job(pkgServer, "HarnessC04", 0, 0, 0), noMapOrder(job(pkgServer, "HarnessC04Seq", 3, 0)))
 			}
 			return js
